@@ -130,7 +130,8 @@ _ALNUM_U = z3.Union(z3.Range('0', '9'), z3.Range('A', 'Z'))
 def _ax_case(src_re, dst_re):
     def ax(args, res):
         s = args[0].t
-        return z3.And(z3.Implies(z3.InRe(s, z3.Star(_ASCII)), z3.Length(res.t) == z3.Length(s)),
+        return z3.And((z3.Length(res.t) == 0) == (z3.Length(s) == 0),
+                      z3.Implies(z3.InRe(s, z3.Star(_ASCII)), z3.Length(res.t) == z3.Length(s)),
                       z3.Implies(z3.InRe(s, z3.Star(z3.Union(src_re, dst_re))), z3.InRe(res.t, z3.Star(dst_re))))
     return ax
 
@@ -138,7 +139,7 @@ def _ax_case(src_re, dst_re):
 def _nat_case(kind):
     def nat(a, r):
         s = a[0]
-        ok = True
+        ok = (len(r) == 0) == (len(s) == 0)
         if all(ord(c) < 128 for c in s):
             ok = ok and len(r) == len(s)
         if _re.fullmatch(r'[0-9a-zA-Z]*', s):
@@ -149,10 +150,10 @@ def _nat_case(kind):
 
 _CASE_BATTERY = [[''], ['abc'], ['AbC09'], ['ff'], ['-1a'], ['stra\u00dfe'], ['\u0130x'], ['a b']]
 UPPER = uf('py_upper', ['str'], 'str', lambda s: s.upper(), axiom=(
-    'ASCII s: len(s.upper()) == len(s); alphanumeric ASCII s: s.upper() is over [0-9A-Z]', _ax_case(_ALNUM_L, _ALNUM_U),
+    's.upper() is empty iff s is; ASCII s: len(s.upper()) == len(s); alphanumeric ASCII s: s.upper() is over [0-9A-Z]', _ax_case(_ALNUM_L, _ALNUM_U),
     _nat_case('upper'), _CASE_BATTERY))
 LOWER = uf('py_lower', ['str'], 'str', lambda s: s.lower(), axiom=(
-    'ASCII s: len(s.lower()) == len(s); alphanumeric ASCII s: s.lower() is over [0-9a-z]', _ax_case(_ALNUM_U, _ALNUM_L),
+    's.lower() is empty iff s is; ASCII s: len(s.lower()) == len(s); alphanumeric ASCII s: s.lower() is over [0-9a-z]', _ax_case(_ALNUM_U, _ALNUM_L),
     _nat_case('lower'), _CASE_BATTERY))
 def _ax_strip(args, res):
     s, r = args[0].t, res.t
